@@ -4,8 +4,8 @@ From Coq Require Import String List NArith ZArith Bool.
 From J5V.lib Require Import Outcome.
 From J5V.model Require Import ReflectDesc ReflectSchema Reflect ReflectSpec.
 From J5V.gen Require ReflectGen.
-From J5V.proofs Require Import ReflectProofs ExportProofs ReflectInvProofs ReflectPathProofs ReflectFuelProofs ReflectFlattenProofs ReflectCodecProofs.
-From J5V.model Require Import Export.
+From J5V.proofs Require Import ReflectProofs ExportProofs ReflectInvProofs ReflectPathProofs ReflectFuelProofs ReflectFlattenProofs ReflectCodecProofs ReflectDeclProofs.
+From J5V.model Require Import Export ReflectDecl.
 Import ListNotations.
 
 (* The property at full strength, for every abstract descriptor set [D] (no hypothesis at all)
@@ -21,11 +21,15 @@ Definition C18_full_statement : Prop :=
       forall m r, In m (d_msgs D) -> lookup S (msg_key m) = Some (Linked r) ->
         codec_classes D S m r = (0%N, 0%N).
 
-(* ---- totality (for all descriptor sets whose enums have a value and whose enum names do not
-   collide, after splitDescriptorName, with message / oneof names: [wf_total]) *)
-Theorem C18_reflect_total : forall D, wf_total D -> forall fs,
+(* ---- totality. The only hypothesis is what protodesc.NewFiles guarantees of every linked set and
+   is stated as such, not derived: an enum has at least one value ([enums_nonempty]; protodesc rejects
+   "enum must contain at least one value declaration"). No condition on names: since the guard in
+   buildEnumFieldSchema (fix 32db692 in /repo) a split-name collision between an enum and a message /
+   oneof is an error, no longer a failed type assertion. The reader's remaining panic site is
+   buildEnum's sourceValues.Get(0) on an enum without values (C18_empty_enum_panics_in_the_model). *)
+Theorem C18_reflect_total : forall D, enums_nonempty D -> forall fs,
   (forall s, reflect D fs <> Panic s) /\ reflect D fs <> OutOfFuel.
-Proof. exact reflect_total. Qed.
+Proof. exact reflect_total_any_names. Qed.
 Print Assumptions C18_reflect_total.
 
 (* "never recurses forever", for EVERY descriptor set and every cache state (no hypothesis): the fuel
@@ -39,12 +43,12 @@ Theorem C18_cache_never_out_of_fuel : forall D st m, In m (d_msgs D) -> snd (cac
 Proof. exact cache_schema_never_out_of_fuel. Qed.
 Print Assumptions C18_cache_never_out_of_fuel.
 
-(* SchemaCache.Schema, from any cache state reachable by earlier calls (the invariant [Inv] is
-   kept by every call, successful or not): no panic, no fuel exhaustion, no entry removed *)
-Theorem C18_cache_schema_total : forall D, wf_total D -> forall st m, In m (d_msgs D) -> Inv D st ->
-  let '(st', o) := cache_schema D (size D) st m in
-  Inv D st' /\ ext st st' /\ (forall s, o <> Panic s) /\ o <> OutOfFuel.
-Proof. exact cache_schema_total. Qed.
+(* SchemaCache.Schema, from ANY cache state (no invariant needed: whatever earlier calls, failed or
+   not, left behind): no panic, no fuel exhaustion, no entry removed *)
+Theorem C18_cache_schema_total : forall D, enums_nonempty D -> forall st m, In m (d_msgs D) ->
+  ext st (fst (cache_schema D (size D) st m)) /\
+  (forall s, snd (cache_schema D (size D) st m) <> Panic s) /\ snd (cache_schema D (size D) st m) <> OutOfFuel.
+Proof. exact cache_schema_total_any_state. Qed.
 Print Assumptions C18_cache_schema_total.
 
 (* ---- self-consistency of a successful reflection, under the hypothesis wf_keys:
@@ -146,6 +150,64 @@ Theorem C18_reflect_consistent : forall D fs S,
 Proof. exact reflect_consistent. Qed.
 Print Assumptions C18_reflect_consistent.
 
+(* ---- the reader against an independent, declarative description (model/ReflectDecl.v: the schema of a
+   descriptor as a function of the descriptor set alone: no schema set, no placeholder, no recursion
+   through references). Under wf_keys every entry a successful reflection links is the declared schema
+   of the descriptor of its name: enums [build_enum e], messages [decl_root D m] together with the
+   schemas of their exposed oneofs [decl_oneof_of m e]. *)
+Theorem C18_reader_links_the_declared_schemas : forall D, wf_keys D -> forall fs S,
+  reflect D fs = Ok S ->
+  (forall e r, In e (d_enums D) -> lookup S (enum_key e) = Some (Linked r) -> build_enum e = Ok r) /\
+  (forall m r, In m (d_msgs D) -> lookup S (msg_key m) = Some (Linked r) ->
+     decl_root D m = ROk r /\
+     forall exs ps e, decl_props D m = ROk (exs, ps) -> In e exs ->
+       lookup S (ex_key e) = Some (Linked (decl_oneof_of m e))).
+Proof. exact reflect_declared. Qed.
+Print Assumptions C18_reader_links_the_declared_schemas.
+
+(* ---- cache transparency (SchemaCache.Schema), values: for any two call histories (successful and
+   failed calls, any messages, any order) the answers for one message are the SAME schema, and the
+   caches hold the same schemas for its exposed oneofs; in particular the answer of a cache with any
+   history equals the answer of a fresh cache whenever both answer. A failed call leaves the cache
+   exactly as it was (the roll-back; in the model by definition of cache_schema, on the code by the
+   shared-cache history stream), and a name already held is answered from the cache, unchanged.
+   NOT proved: that a cache with a history answers Ok exactly when a fresh cache does (class
+   transparency; needs the characterisation of the reader's acceptance by the closure of the
+   message): that half is checked per case (oracle "answer depends on earlier failed builds",
+   correspondence of the history stream) and stays partial. *)
+Theorem C18_cache_answers_agree : forall D, wf_keys D -> forall st st' m r r',
+  cache_reach D st -> cache_reach D st' -> In m (d_msgs D) ->
+  snd (cache_schema D (size D) st m) = Ok r -> snd (cache_schema D (size D) st' m) = Ok r' ->
+  r = r' /\
+  (forall exs ps e, decl_props D m = ROk (exs, ps) -> In e exs ->
+     lookup (fst (cache_schema D (size D) st m)) (ex_key e) = Some (Linked (decl_oneof_of m e)) /\
+     lookup (fst (cache_schema D (size D) st' m)) (ex_key e) = Some (Linked (decl_oneof_of m e))).
+Proof. exact cache_answers_agree. Qed.
+Print Assumptions C18_cache_answers_agree.
+
+Theorem C18_cache_answer_is_fresh_answer : forall D, wf_keys D -> forall st m r r',
+  cache_reach D st -> In m (d_msgs D) ->
+  snd (cache_schema D (size D) st m) = Ok r -> snd (cache_schema D (size D) [] m) = Ok r' -> r = r'.
+Proof. exact cache_answer_is_fresh_answer. Qed.
+Print Assumptions C18_cache_answer_is_fresh_answer.
+
+Theorem C18_cache_states_agree : forall D, wf_keys D -> forall st st',
+  cache_reach D st -> cache_reach D st' ->
+  (forall m r r', In m (d_msgs D) -> lookup st (msg_key m) = Some (Linked r) -> lookup st' (msg_key m) = Some (Linked r') -> r = r') /\
+  (forall e r r', In e (d_enums D) -> lookup st (enum_key e) = Some (Linked r) -> lookup st' (enum_key e) = Some (Linked r') -> r = r').
+Proof. exact cache_states_agree. Qed.
+Print Assumptions C18_cache_states_agree.
+
+Theorem C18_cache_failed_call_rolls_back : forall D fuel st m,
+  (forall r, snd (cache_schema D fuel st m) <> Ok r) -> fst (cache_schema D fuel st m) = st.
+Proof. exact cache_failed_call_unchanged. Qed.
+Print Assumptions C18_cache_failed_call_rolls_back.
+
+Theorem C18_cache_hit : forall D fuel st m r,
+  lookup st (msg_key m) = Some (Linked r) -> cache_schema D fuel st m = (st, Ok r).
+Proof. exact cache_hit. Qed.
+Print Assumptions C18_cache_hit.
+
 (* each proto kind is handled by an arm or rejected with an error, as the Go switches list them *)
 Theorem C18_scalar_arms_are_the_code's :
   map kind_go_name scalar_kinds_handled = ReflectGen.scalar_kind_arms /\
@@ -163,29 +225,57 @@ Definition ex_fopts := FOpts None None None None.
 (* ---- where the faithful model violates the full statement (each witness replays on the real code;
    the corresponding known findings are listed in KNOWN_FINDINGS.txt) *)
 
-(* 1. schema names are the descriptor path joined by "_": `message Bar { enum Kind {..} }` and
-   `message Bar_Kind { Bar.Kind k = 1 [(buf.validate.field).enum.in = 1]; }` share the name Bar_Kind;
-   the enum rule's type assertion meets the message's own placeholder: Panic *)
+(* 1. schema names are the descriptor path joined by "_": nested `message Col { message Inner { int32 n = 1; } }`
+   and top-level `message Col_Inner { Col.Inner i = 1; string s = 2; }` share the name Col_Inner. Enums
+   are non-empty, the reader succeeds with ONE entry for the two messages (Col_Inner is answered with
+   Col.Inner's object), and the codec cannot build the properties of Col_Inner from it (an integer
+   schema on a message field). (Until the guard in buildEnumFieldSchema the enum / message variant
+   `message Bar { enum Kind } message Bar_Kind { Bar.Kind k = 1 [enum.in] }` made the reader panic.) *)
 Definition collision_desc : desc :=
   {| d_msgs := [
-       Msg (bytes "p.v1.Bar") (bytes "p.v1") [bytes "Bar"] [] [] None None [];
-       Msg (bytes "p.v1.Bar_Kind") (bytes "p.v1") [bytes "Bar_Kind"]
-         [Fld (bytes "k") (bytes "k") 1 KEnum CSingle None (TEnum (bytes "p.v1.Bar.Kind"))
-              (FOpts (Some (FCon None None (VEnum [1%Z] []))) None None None) []]
+       Msg (bytes "p.v1.Col") (bytes "p.v1") [bytes "Col"] [] [] None None [];
+       Msg (bytes "p.v1.Col.Inner") (bytes "p.v1") [bytes "Col"; bytes "Inner"]
+         [Fld (bytes "n") (bytes "n") 1 KInt32 CSingle None TNone ex_fopts []] [] None None [];
+       Msg (bytes "p.v1.Col_Inner") (bytes "p.v1") [bytes "Col_Inner"]
+         [Fld (bytes "i") (bytes "i") 1 KMessage CSingle None (TMsg (bytes "p.v1.Col.Inner")) ex_fopts [];
+          Fld (bytes "s") (bytes "s") 2 KString CSingle None TNone ex_fopts []]
          [] None None []];
-     d_enums := [Enum (bytes "p.v1.Bar.Kind") (bytes "p.v1") [bytes "Bar"; bytes "Kind"]
-                   [EnumVal (bytes "KIND_UNSPECIFIED") 0 None []; EnumVal (bytes "KIND_A") 1 None []] None []];
-     d_files := [File (bytes "p/v1/a.proto") (bytes "p.v1") [bytes "p.v1.Bar"; bytes "p.v1.Bar_Kind"] []] |}.
+     d_enums := [];
+     d_files := [File (bytes "p/v1/a.proto") (bytes "p.v1")
+                   [bytes "p.v1.Col"; bytes "p.v1.Col.Inner"; bytes "p.v1.Col_Inner"] []] |}.
 
-Theorem C18_split_name_collision_refuted : ~ C18_full_statement.
+Theorem C18_split_name_collision_refuted :
+  enums_nonempty collision_desc /\
+  (exists S m r, reflect collision_desc (d_files collision_desc) = Ok S /\ length S = 2%nat /\
+     In m (d_msgs collision_desc) /\ lookup S (msg_key m) = Some (Linked r) /\
+     codec_classes collision_desc S m r = (0%N, 1%N)) /\
+  ~ C18_full_statement.
 Proof.
-  intros H. destruct (H collision_desc (d_files collision_desc)) as [Hp _].
-  apply (Hp "buildEnumFieldSchema: ref.To.(EnumSchema) on a nil RootSchema"%string).
-  vm_compute. reflexivity.
+  split; [intros e []|].
+  assert (Hw : exists S m r, reflect collision_desc (d_files collision_desc) = Ok S /\ length S = 2%nat /\
+     In m (d_msgs collision_desc) /\ lookup S (msg_key m) = Some (Linked r) /\
+     codec_classes collision_desc S m r = (0%N, 1%N)).
+  { eexists. eexists. eexists. split; [vm_compute; reflexivity|]. split; [reflexivity|].
+    split; [right; right; left; reflexivity|]. split; vm_compute; reflexivity. }
+  split; [exact Hw|].
+  intros H. destruct Hw as (S & m & r & HS & _ & Hm & Hl & Hc).
+  destruct (H collision_desc (d_files collision_desc)) as (_ & _ & Hok).
+  destruct (Hok S HS) as [_ Hcodec]. rewrite (Hcodec m r Hm Hl) in Hc. discriminate.
 Qed.
 Print Assumptions C18_split_name_collision_refuted.
 
-(* 2. a well-formed set (wf_total) that reflects fine but whose reflected type the codec cannot build:
+(* why the hypothesis of C18_reflect_total is there: in the model an enum without values makes
+   buildEnum panic (sourceValues.Get(0)); protodesc.NewFiles rejects such a file, so no linked set
+   has one, and the harness cannot produce the input *)
+Definition empty_enum_desc : desc :=
+  {| d_msgs := []; d_enums := [Enum (bytes "p.v1.E") (bytes "p.v1") [bytes "E"] [] None []];
+     d_files := [File (bytes "p/v1/a.proto") (bytes "p.v1") [] [bytes "p.v1.E"]] |}.
+Theorem C18_empty_enum_panics_in_the_model :
+  exists s, reflect empty_enum_desc (d_files empty_enum_desc) = Panic s.
+Proof. eexists. vm_compute. reflexivity. Qed.
+Print Assumptions C18_empty_enum_panics_in_the_model.
+
+(* 2. a set (enums non-empty, no name collision) that reflects fine but whose reflected type the codec cannot build:
    google.protobuf.Struct is read as a map of any, buildProperty wants a proto map *)
 Definition struct_desc : desc :=
   {| d_msgs := [
@@ -196,13 +286,13 @@ Definition struct_desc : desc :=
      d_files := [File (bytes "p/v1/a.proto") (bytes "p.v1") [bytes "p.v1.M"] []] |}.
 
 Theorem C18_struct_codec_refuted :
-  wf_total struct_desc /\
+  enums_nonempty struct_desc /\
   exists S m r, reflect struct_desc (d_files struct_desc) = Ok S /\ In m (d_msgs struct_desc) /\
                 lookup S (msg_key m) = Some (Linked r) /\ set_consistent struct_desc S = true /\
                 codec_classes struct_desc S m r = (0%N, 1%N).
 Proof.
   split.
-  - split; [intros e []|intros e m []].
+  - intros e [].
   - eexists. eexists. eexists. split; [vm_compute; reflexivity|]. split; [left; reflexivity|].
     split; [vm_compute; reflexivity|]. split; vm_compute; reflexivity.
 Qed.
@@ -222,13 +312,13 @@ Definition flatten_names_desc : desc :=
      d_files := [File (bytes "p/v1/a.proto") (bytes "p.v1") [bytes "p.v1.A"; bytes "p.v1.B"] []] |}.
 
 Theorem C18_flatten_names_refuted :
-  wf_total flatten_names_desc /\
+  enums_nonempty flatten_names_desc /\
   exists S ps cps, reflect flatten_names_desc (d_files flatten_names_desc) = Ok S /\
     lookup S (bytes "p.v1", bytes "A") = Some (Linked (RObject (bytes "A") [] None [] ps)) /\
     client_props (length S + 1) S ps = Ok cps /\ names_unique_b ps = true /\ names_unique_b cps = false.
 Proof.
   split.
-  - split; [intros e []|intros e m []].
+  - intros e [].
   - eexists. eexists. eexists. split; [vm_compute; reflexivity|]. split; [vm_compute; reflexivity|].
     split; [vm_compute; reflexivity|]. split; vm_compute; reflexivity.
 Qed.
@@ -248,13 +338,13 @@ Definition oneof_clash_desc : desc :=
      d_files := [File (bytes "p/v1/a.proto") (bytes "p.v1") [bytes "p.v1.M"] []] |}.
 
 Theorem C18_exposed_oneof_name_clash_refuted :
-  wf_total oneof_clash_desc /\ NoDup (all_keys oneof_clash_desc) /\
+  enums_nonempty oneof_clash_desc /\ NoDup (all_keys oneof_clash_desc) /\
   (forall m, In m (d_msgs oneof_clash_desc) -> NoDup (map f_json (m_fields m)) /\ NoDup (map f_num (m_fields m))) /\
   exists S ps, reflect oneof_clash_desc (d_files oneof_clash_desc) = Ok S /\
     lookup S (bytes "p.v1", bytes "M") = Some (Linked (RObject (bytes "M") [] None [] ps)) /\
     names_unique_b ps = false /\ set_consistent oneof_clash_desc S = false.
 Proof.
-  split; [split; [intros e []|intros e m []]|].
+  split; [intros e []|].
   split; [apply nodup_refs_NoDup; vm_compute; reflexivity|].
   split.
   - intros m [<-|[]]. split; [apply nodup_str_NoDup|apply nodup_N_NoDup]; vm_compute; reflexivity.
@@ -263,7 +353,7 @@ Qed.
 Print Assumptions C18_exposed_oneof_name_clash_refuted.
 
 (* ---- non-vacuity: a self-recursive and a mutually recursive message, an enum, a bool const rule,
-   a flattened (non-cyclic) field; wf_total holds and the reader succeeds *)
+   a flattened (non-cyclic) field; the hypotheses hold and the reader succeeds *)
 Definition ex_desc : desc :=
   {| d_msgs := [
        Msg (bytes "p.v1.Node") (bytes "p.v1") [bytes "Node"]
@@ -282,15 +372,13 @@ Definition ex_desc : desc :=
      d_files := [File (bytes "p/v1/a.proto") (bytes "p.v1") [bytes "p.v1.Node"; bytes "p.v1.Peer"] [bytes "p.v1.Kind"]] |}.
 
 Example C18_example :
-  wf_paths ex_desc /\ wf_desc ex_desc /\ wf_total ex_desc /\
+  wf_paths ex_desc /\ wf_desc ex_desc /\ enums_nonempty ex_desc /\
   exists S, reflect ex_desc (d_files ex_desc) = Ok S /\ length S = 3%nat /\ set_consistent ex_desc S = true.
 Proof.
   split; [apply wf_paths_b_sound; vm_compute; reflexivity|].
   split; [apply wf_desc_b_sound; vm_compute; reflexivity|].
   split.
-  - split.
-    + intros e [<-|[]]. cbn. discriminate.
-    + intros e m [<-|[]] [<-|[<-|[]]]; (split; [vm_compute; discriminate|intros o []]).
+  - intros e [<-|[]]. cbn. discriminate.
   - eexists. split; [vm_compute; reflexivity|]. split; vm_compute; reflexivity.
 Qed.
 
@@ -311,3 +399,19 @@ Example C18_example_codec :
       | _ => false
       end) (d_msgs ex_desc) = true.
 Proof. eexists. split; vm_compute; reflexivity. Qed.
+
+(* the cache theorems' hypotheses on the example: two histories (Peer then Node; Node alone) reach
+   states that answer Node with the same schema, which is the declared one *)
+Example C18_example_cache :
+  wf_keys ex_desc /\
+  exists mN mP, In mN (d_msgs ex_desc) /\ In mP (d_msgs ex_desc) /\
+    let st1 := fst (cache_schema ex_desc (size ex_desc) [] mP) in
+    cache_reach ex_desc st1 /\
+    exists r, snd (cache_schema ex_desc (size ex_desc) st1 mN) = Ok r /\
+              snd (cache_schema ex_desc (size ex_desc) [] mN) = Ok r /\ decl_root ex_desc mN = ROk r.
+Proof.
+  split; [apply wf_desc_b_sound; vm_compute; reflexivity|].
+  eexists. eexists. split; [left; reflexivity|]. split; [right; left; reflexivity|].
+  cbv zeta. split; [apply reach_call; [apply reach_new|right; left; reflexivity]|].
+  eexists. split; [vm_compute; reflexivity|]. split; vm_compute; reflexivity.
+Qed.
